@@ -128,3 +128,25 @@ Definition case_tags (c : ccase) : list N :=
   | None => [99]
   | Some (s, _) => map (fun kr => tag_of_result (snd kr)) (log s)
   end.
+
+(** One pass: (indices of mismatching cases, completion tags of all cases). *)
+Definition eval_case (c : ccase) : bool * list N :=
+  match replay (cc_events c) init_st [] with
+  | None => (false, [99])
+  | Some (s, cancelled) =>
+      (negb (panicked s) &&
+       Bool.eqb (cc_exited c) (negb (running s)) &&
+       forallb (obs_agrees s cancelled) (cc_callers c),
+       map (fun kr => tag_of_result (snd kr)) (log s))
+  end.
+
+Fixpoint eval_from (i : nat) (cs : list ccase) : list nat * list N :=
+  match cs with
+  | [] => ([], [])
+  | c :: r =>
+      let '(ok, tags) := eval_case c in
+      let '(m, t) := eval_from (S i) r in
+      (if ok then m else i :: m, tags ++ t)
+  end.
+
+Definition eval_all (cs : list ccase) : list nat * list N := eval_from 0 cs.
